@@ -564,9 +564,12 @@ func Run(r *ev.Run) {
 	scriptPhase(r, stores, scriptEnvs, cols[:10], trs)
 	// generated poison-key histories incl. destruction and key states (keyhistory.go)
 	keyHistoryPhase(r, stores[0].foreign, cols[:10], trs)
+	// poison symmetric key histories in which several keys share the 2-byte AcraBlock key id (keycollide.go)
+	keyCollisionPhase(r, stores[0].foreign, cols[:10], trs)
 	finishGuards(r)
 	scriptGuards(r)
 	keyHistoryGuards(r)
+	keyCollisionGuards(r)
 	if ProxyLayer != nil {
 		ProxyLayer(r)
 	}
